@@ -37,7 +37,20 @@ CHECKS = {
     ),
 }
 
-PENDING = {p: "check under construction in this session; will be claimed (see DESIGN.md section 0)" for p in ("C04","C05","C06","C16","C19","C20")}
+CHECKS["C19"] = dict(
+    category="exploration",
+    text="Two (sampled: three) real caller threads under a baton-passing scheduler; every line event of library, generated "
+         "and world code is a yield point. Quick: every single pre-emption placement (first visit of each line; second visit in "
+         "the build/resolution functions) of either thread in five racing shapes on two fixed worlds, plus seeded worlds under "
+         "placed / PCT / random-walk schedules. Each operation must equal its solo outcome on a fresh function, the function "
+         "must afterwards agree with a fresh build on the whole corpus, no deadlock, bounded steps.",
+    design_ref="DESIGN.md 4/C19",
+    note="Line granularity under the GIL; library locks replaced by simulated locks so that blocking is a scheduler decision; "
+         "free-threaded CPython and pre-emption inside C calls are not modelled. Sampling, not proof.",
+    technique="deterministic simulation: seeded schedule search over real threads parked at trace-function yield points",
+)
+
+PENDING = {p: "check under construction in this session; will be claimed (see DESIGN.md section 0)" for p in ("C04","C05","C06","C16","C20")}
 
 
 def main():
